@@ -22,7 +22,8 @@ PROPS = {
                      "Astria.C13_validB_sound"],
         "harnesses": ["mempool"],
         "monitors": ["one_place", "no_silent_loss", "ready_consecutive", "no_used_nonce_after_maintenance",
-                     "ready_affordable", "parked_limits", "pending_nonce", "builder_order", "dump_parse"],
+                     "ready_affordable", "parked_limits", "pending_nonce", "builder_order", "builder_priority",
+                     "dump_parse"],
         "scope_regex": r"^mempool ",
         "nontrivial_regex": r"^mempool (insert \S+ .* => (pending|parked)|remove \S+ \S+ => ok \| .* R=[^-]|maintain .* => ok \| P=[^-]|maintain .* => ok \| P=- K=[^-]|uncache )",
         "rule": "in-crate harness (child module of `mempool`, reads the private containers, removal cache and result cache) on the REAL "
